@@ -39,6 +39,16 @@ CHECKS = {
         note="One 25-point mock spectrum family; the numeric identities are evaluated by the harness (rtol 1e-9), TLC sees the witnesses as booleans; BHT runs with a re-seeded global RNG.",
         technique="TLA+ spec (Analysis.tla) + TLC-enumerated configurations driven into the code; code->spec batched trace validation (TraceAnalysis.tla)",
     ),
+    "C12": dict(
+        text="specs/Fit.tla states fit_circuit as an action on the parameter store (non-fixed values within their limits, fixed values "
+             "kept exactly, limits/flags/labels unchanged, table = returned circuit, user constraints hold, input untouched, and recovery "
+             "of the generating values for self-generated data); specs/FitConfigs.tla enumerates family x fixed pattern x limit box x "
+             "method x weight x constraint. A seeded sample of configurations is fitted for real; the harness abstracts each returned "
+             "circuit into the comparisons of Fit.tla and specs/TraceFit.tla decides every recorded fit (invariants vs recovery).",
+        design_ref="§4 C12",
+        note="Six circuit families with fixed generating values; recovery only required for method='auto', weight='auto' with default or tight limits (tolerance 1e-3, pseudo chi-squared < 1e-9); FittingError outcomes are counted, not judged.",
+        technique="TLA+ spec (Fit.tla) + TLC-enumerated configurations driven into the code; code->spec batched trace validation (TraceFit.tla)",
+    ),
     "C14": dict(
         text="The parameter store of Element (specs/ElementParams.tla: set_values/set_lower_limits/set_upper_limits/set_fixed in "
              "keyword, positional and malformed forms, set_label, reset_parameter(s), copy/deepcopy, to_string->parse_cdc, two live "
